@@ -3,6 +3,8 @@ from areas import tree
 
 
 def run(chk):
+    from areas import sortmap_tie
+    sortmap_tie.tie_run(chk, "map")
     return tree.run_check(chk, "C08")
 
 
